@@ -336,9 +336,17 @@ class C10:
             g = V.ValueGen(rng, pydict=cfgd, su=su, canonical=True, maxdepth=3)
             vals.append((rng.randint(0, 5), su, g.value()))
         enc_lines = [f"enc {p} {int(su)} - {V.render(v, sort=False)}" for p, su, v in vals]
+        self.from_encode = set()
         for a in C.run_go(enc_lines):
             if a.startswith("OK "):
                 out.append(b"".join(bytes.fromhex(c) if c != "-" else b"" for c in a[3:].split(",")))
+                self.from_encode.add(out[-1])
+        # ... and of values from the reflect universe (typed nil pointers, pointer chains, structs, typed slices and maps)
+        base = ctx.seed * 7000003
+        for a in C.run_go([f"encr {base + i} {rng.randint(0, 5)} {rng.randint(0, 1)}" for i in range(ctx.scale(250, 3000))]):
+            if " => OK " in a:
+                out.append(b"".join(bytes.fromhex(c) if c != "-" else b"" for c in a.split(" => OK ", 1)[1].split(",")))
+                self.from_encode.add(out[-1])
         # CPython pickles
         from . import pyside
         for obj in pyside.rand_objects(rng, ctx.scale(100, 2000)):
@@ -403,6 +411,10 @@ class C10:
             if k is None:
                 f = g.split(" ")
                 ctx.count("pickle:" + ("valid" if f[0] == "OK" else "invalid"))
+                if f[0] == "OK" and int(f[1]) < len(data) and data in self.from_encode:
+                    # what Encode wrote is one pickle by the quantifier's premise: this proper prefix of it returns a value
+                    ctx.violate("a proper prefix of a pickle written by Encode returns a value instead of (nil, io.ErrUnexpectedEOF)",
+                                f"dec {cfg} - {hexs(data[:int(f[1])])}   (cut {f[1]} of Encode output {hexs(data)})", "U", "a value")
                 if f[0] == "OK" and int(f[1]) == len(data):
                     letters = f[2] if len(f) > 2 else ""
                     ctx.count("cuts", len(letters))
@@ -418,6 +430,9 @@ class C10:
                 # a valid pickle: the implementation, or the model (which is what the theorem quantifies over), decodes
                 # exactly these bytes to a value
                 fullok[(cfg, data)] = any(a.startswith("OK ") and a.endswith(f" {len(data)}") for a in (g, l))
+                if g.startswith("OK ") and not g.endswith(f" {len(data)}") and data in self.from_encode:
+                    ctx.violate("a proper prefix of a pickle written by Encode returns a value instead of (nil, io.ErrUnexpectedEOF)",
+                                f"{line[:3000]}   (Encode output, {len(data)} bytes; Decode stopped after {g.rsplit(' ', 1)[1]})", "U", "a value")
                 ctx.count("long-pickle:" + ("valid" if fullok[(cfg, data)] else "invalid"))
                 if fullok[(cfg, data)]:
                     ctx.nontrivial((cfg, data))
